@@ -277,7 +277,7 @@ var c16Letters = []string{
 // RunC16 decides the post-change-hook half of C16 at the RIB tier.
 func RunC16(rep *report.Report, tier string) {
 	depth := 4
-	ck := NewClock(tier, 100*time.Second, 20*time.Minute, 18)
+	ck := NewClock(tier, 100*time.Second, 20*time.Minute, 20)
 	if tier == "thorough" {
 		depth = 7 // (budget-bounded: the search reports the depth it completed)
 	}
@@ -289,6 +289,11 @@ func RunC16(rep *report.Report, tier string) {
 			o := &Options{Letters: letters, Checks: Checks{Hooks: true}, Hook: hc, Init: Alphabet(ribInits[name]...)}
 			Search(rep, fmt.Sprintf("rib/hook-config-%d/from-%s", hc, name), o, depth-1, ck.Next())
 		}
+	}
+	// the hook given to server.New as an option, the second instance through WithVRFs, options in both orders
+	for _, hc := range []HookConfig{HookServerOptVRFsFirst, HookServerOptHookFirst} {
+		o := &Options{Letters: letters, Checks: Checks{Hooks: true}, Hook: hc}
+		Search(rep, fmt.Sprintf("server-options/hook-config-%d", hc), o, depth-2, ck.Next())
 	}
 	rt.MapOrder = 1 // descending iteration order of every map (Flush and the held-operation walk emit hooks in map order)
 	for _, name := range []string{"held-operations", "entries-installed"} {
